@@ -430,10 +430,12 @@ pub fn supplies(quick: bool) -> Vec<SupplySpec> {
         SupplySpec::Periodic { q: 2, p: 3 },
         SupplySpec::Periodic { q: 1, p: 3 },
         SupplySpec::Constrained { q: 1, dl: 2, p: 3 },
+        // budget = deadline < period
+        SupplySpec::Constrained { q: 1, dl: 1, p: 2 },
     ];
     if !quick {
         v.push(SupplySpec::Constrained { q: 2, dl: 3, p: 4 });
-        v.push(SupplySpec::Constrained { q: 1, dl: 1, p: 2 });
+        v.push(SupplySpec::Constrained { q: 2, dl: 2, p: 3 });
         v.push(SupplySpec::Periodic { q: 3, p: 5 });
         v.push(SupplySpec::Constrained { q: 2, dl: 4, p: 5 });
     }
@@ -621,6 +623,8 @@ pub fn families(id: &str, quick: bool) -> Vec<Family> {
             }
         }
         "C05" => {
+            // (the quick tier of C05 keeps to five supplies; C04 and the thorough tier use all)
+            let sups: Vec<SupplySpec> = if quick { sups.into_iter().filter(|s| *s != SupplySpec::Constrained { q: 1, dl: 1, p: 2 }).collect() } else { sups };
             for bw in [false, true] {
                 let nm = if bw { "bw" } else { "rr" };
                 if quick {
